@@ -2,6 +2,7 @@ package props
 
 import (
 	"fmt"
+	"strings"
 
 	"verif/checker/internal/core"
 	"verif/checker/internal/fam"
@@ -12,7 +13,7 @@ import (
 // property / array item / definition / allOf-anyOf branch position, at depth 1..2.
 func hostileMembers(cfg gen.Config) []member {
 	var out []member
-	kinds := []string{"null-property", "null-allOf", "null-anyOf", "null-anyOf-untyped", "null-allOf-untyped", "null-definition", "empty-enum", "nonprimitive-enum", "unknown-type", "missing-definition", "bad-pointer"}
+	kinds := []string{"null-property", "null-allOf", "null-anyOf", "null-anyOf-untyped", "null-allOf-untyped", "null-definition", "empty-enum", "nonprimitive-enum", "unknown-type", "missing-definition", "bad-pointer", "empty-definition-name"}
 	for _, k := range kinds {
 		bad := func() *fam.Spec {
 			switch k {
@@ -30,7 +31,7 @@ func hostileMembers(cfg gen.Config) []member {
 		out = append(out, member{name: k + " in nested object", cfg: cfg, root: &fam.Spec{Kind: "object", Props: []*fam.Prop{{Label: "o", Spec: &fam.Spec{Kind: "object", Props: []*fam.Prop{{Label: "p", Spec: bad()}}}}}}})
 		d := &fam.Spec{Kind: "object", Ref: "$defs", Props: []*fam.Prop{{Label: "p", Spec: bad()}}}
 		out = append(out, member{name: k + " in a definition", cfg: cfg, root: &fam.Spec{Kind: "object", Props: []*fam.Prop{{Label: "r", Spec: d}}}})
-		if k != "missing-definition" && k != "bad-pointer" {
+		if k != "missing-definition" && k != "bad-pointer" && k != "empty-definition-name" {
 			self := bad()
 			self.Ref = "definitions"
 			out = append(out, member{name: k + " as a definition itself", cfg: cfg, root: &fam.Spec{Kind: "object", Props: []*fam.Prop{{Label: "r", Spec: self}}}})
@@ -52,13 +53,17 @@ func hostileMembers(cfg gen.Config) []member {
 		out = append(out, member{name: k + " as a property next to anyOf in a definition", cfg: cfg, root: &fam.Spec{Kind: "object", Props: []*fam.Prop{{Label: "r", Spec: dn}}}})
 		// ... as a branch ITSELF (not inside a branch's properties), next to a primitive branch
 		switch k {
-		case "empty-enum", "nonprimitive-enum", "unknown-type", "missing-definition", "bad-pointer":
+		case "empty-enum", "nonprimitive-enum", "unknown-type", "missing-definition", "bad-pointer", "empty-definition-name":
 			out = append(out, member{name: k + " as an anyOf branch itself", cfg: cfg, root: &fam.Spec{Kind: "object", Props: []*fam.Prop{{Label: "u", Spec: &fam.Spec{Kind: "any", AnyOf: []*fam.Spec{bad(), {Kind: "integer"}}}}}}})
 			out = append(out, member{name: k + " as an allOf branch itself", cfg: cfg, root: &fam.Spec{Kind: "object", Props: []*fam.Prop{{Label: "u", Spec: &fam.Spec{Kind: "any", AllOf: []*fam.Spec{bad(), {Kind: "string", NoType: true, Kw: []string{"maxLength"}}}}}}}})
 			dd := &fam.Spec{Kind: "object", Ref: "$defs", Props: []*fam.Prop{{Label: "xs", Spec: &fam.Spec{Kind: "array", Items: &fam.Spec{Kind: "any", AnyOf: []*fam.Spec{{Kind: "integer"}, bad()}}}}}}
 			out = append(out, member{name: k + " as an anyOf branch of array items in a definition", cfg: cfg, root: &fam.Spec{Kind: "object", Props: []*fam.Prop{{Label: "r", Spec: dd}}}})
 		}
 	}
+	// an allOf branch that refers to the document containing the allOf: merging brings the same allOf back, so generating the merged
+	// type never consumes the schema — the run must end with an error, not hang
+	out = append(out, member{name: "self-reference as an allOf branch itself", cfg: cfg, root: &fam.Spec{Kind: "object", Props: []*fam.Prop{{Label: "u", Spec: &fam.Spec{Kind: "any", AllOf: []*fam.Spec{
+		{RefRootOf: "#", Kind: "object"}, {Kind: "object", Props: []*fam.Prop{{Label: "k", Spec: &fam.Spec{Kind: "string"}}}}}}}}}})
 	return out
 }
 
@@ -77,6 +82,11 @@ func ruleHostile(c *core.Ctx) {
 			case w.Err != nil && w.Err.Kind == "panic":
 				c.Fail("A-PANIC", "(generator)", normPanic(w.Err.Msg)+" on "+hostileKind(mb.name), w.Err.Pos,
 					fmt.Sprintf("the generator panics (%s at %s; stack %v) on a schema with %s", w.Err.Msg, w.Err.Pos, w.Err.Stack, mb.name), nil)
+			case w.Err != nil && w.Err.Kind == "budget" && strings.Contains(w.Err.Msg, "call depth exceeded"):
+				// these members have fewer than ten schema nodes and every legitimate descent consumes one: more than 400 nested
+				// calls of the interpreted generator is recursion that does not consume the schema
+				c.Fail("A-HANG", "(generator)", "unbounded recursion on "+hostileKind(mb.name)+" "+hostilePos(mb.name), w.Err.Pos,
+					fmt.Sprintf("the interpreted generator exceeds 400 nested calls on the %d-node schema with %s (innermost frames %v): it recurses without consuming the schema — the tool hangs until memory or the stack is exhausted", 8, mb.name, tailStack(w.Err.Stack, 6)), nil)
 			case w.Err != nil:
 				c.Undecided("A-UNDECIDED", "(generator)", w.Err.Msg, w.Err.Pos, fmt.Sprintf("%s on %s (stack %v)", w.Err.Error(), mb.name, w.Err.Stack))
 			case w.GenErr == "":
@@ -107,6 +117,13 @@ func ruleHostile(c *core.Ctx) {
 	// a referenced file is processed as a whole: an ungeneratable definition anywhere in it fails the run (also without $id)
 	ruleMultiSel(c, ruleSet("A-SILENT", "A-ROUTE", "A-GENERR"), 2, "two files without $id")
 	c.Floor("families", c.Counts["members"], 300, "valid family members generated without panic")
+}
+
+func tailStack(st []string, n int) []string {
+	if len(st) > n {
+		return st[len(st)-n:]
+	}
+	return st
 }
 
 func hostileKind(name string) string {
